@@ -7,16 +7,24 @@
    response it got ([e_resp]).  [fkey], [sha], [isec] stand for the float st_mtime of a
    nanosecond timestamp, the SHA-1 hex digest of "<float>-<size>" and int(<float>); the
    premises [sha_injective] ... [second_steps] are what the theorems need of them.
-   [wf_world]: mtime = ctime <= clock in the initial state (every operation keeps it). *)
+   [wf_world]: mtime <= ctime <= clock in the initial state (every operation keeps it). *)
 From Coq Require Import List NArith ZArith Bool.
 From Baize Require Import C14.Model C14.Proofs.
 Import ListNotations.
 Local Open Scope N_scope.
 
-(* A 304 to validators of the full response j: with its ETag sent (in any well-formed
-   list form, with or without its date) the file has the (float mtime, size) it had at
-   response j — or a decoy member of the list denotes the current tag; with only its
-   date sent, the file's whole second is the one of response j. *)
+(* The operation alphabet: Rewrite / Touch set both timestamps to now; Restore puts new content in
+   place with the OLD mtime and SetMtime (os.utime) moves mtime to any earlier time — both move only
+   ctime to now; Wait; Req.  [wf_world]: mtime <= ctime <= clock initially (every operation keeps it).
+
+   What cannot hold and is therefore a premise, not a conclusion: the ETag is a function of (float mtime,
+   size) only, so a Restore with the SAME size (or two size changes back and forth within one float)
+   keeps the ETag although the content changed.  The ETag clauses below are stated on what is hashed. *)
+
+(* A 304 to validators of the full response j: with its ETag sent (in any well-formed list form, with
+   or without its date) the file has the (float mtime, size) it had at response j — or a decoy member of
+   the list denotes the current tag; with only its date sent, the change time is still in the whole
+   second it was in at response j, which is the second Last-Modified named. *)
 Theorem no_stale_304 :
   forall fkey sha isec a i,
     sha_injective sha -> sha_hexdigest sha -> second_monotone isec ->
@@ -30,17 +38,52 @@ Theorem no_stale_304 :
        \/ exists d, In d (b ++ af) /\ member_norm d = etag_of fkey sha (e_file en))
     /\
     (e_inm en = INone -> e_ims en = MLm ->
-       isec (f_mtime (e_file en)) = isec (f_mtime (e_file ej))).
+       isec (f_ctime (e_file en)) = isec (f_ctime (e_file ej)) /\
+       isec (f_ctime (e_file ej)) = isec (f_mtime (e_file ej))).
 Proof. exact no_stale_304_l. Qed.
 Print Assumptions no_stale_304.
 
-(* After a change of the size, or of the timestamps by a second or more, a request with the
-   ETag of response j (no decoy denoting the current tag) gets the full response of the
-   current version with a different ETag; after a change of the timestamps by a second or
-   more so does a request with only the date of response j, and Last-Modified has advanced. *)
+(* A 304 to the date alone means no change of any kind a second or more after response j: every
+   operation that changes the file (content, size, either timestamp) moves ctime to its own time, and
+   the current ctime is less than a second after the one at response j, in the second Last-Modified named. *)
+Theorem date_304_unchanged :
+  forall fkey sha isec a i,
+    second_monotone isec -> second_steps isec ->
+  forall w ops n en ej,
+    wf_world w ->
+    nth_error (run fkey sha isec a i w ops) n = Some en -> r_status (e_resp en) = 304 ->
+    (e_j en < n)%nat -> nth_error (run fkey sha isec a i w ops) (e_j en) = Some ej ->
+    r_status (e_resp ej) = 200 ->
+    e_inm en = INone -> e_ims en = MLm ->
+    f_ctime (e_file ej) <= f_ctime (e_file en) /\ f_ctime (e_file en) < f_ctime (e_file ej) + ns_per_s /\
+    isec (f_ctime (e_file en)) = isec (f_mtime (e_file ej)).
+Proof. exact date_304_unchanged_l. Qed.
+Print Assumptions date_304_unchanged.
+
+(* The decision for the date alone, exactly: 304 iff the whole second of the CHANGE time is not later
+   than the second Last-Modified of response j named. *)
+Theorem date_decision :
+  forall fkey sha isec a i w ops n en ej,
+    wf_world w ->
+    nth_error (run fkey sha isec a i w ops) n = Some en ->
+    (e_j en < n)%nat -> nth_error (run fkey sha isec a i w ops) (e_j en) = Some ej ->
+    r_status (e_resp ej) = 200 ->
+    e_inm en = INone -> e_ims en = MLm ->
+    (isec (f_ctime (e_file en)) <= isec (f_mtime (e_file ej)) -> e_resp en = not_modified) /\
+    (isec (f_mtime (e_file ej)) < isec (f_ctime (e_file en)) ->
+       e_resp en = full_response fkey sha isec (e_file en)).
+Proof. exact date_decision_l. Qed.
+Print Assumptions date_decision.
+
+(* After a change of the size, or of mtime by a second or more (in either direction), a request with
+   the ETag of response j (no decoy denoting the current tag) gets the full response of the current
+   version with a different ETag.  After ANY change a second or more later (ctime moved by >= 1 s:
+   rewrite, touch, restore with the old mtime and the same or another size, utime) a request with only
+   the date of response j gets the full response of the current version. *)
 Theorem fresh_after_change :
   forall fkey sha isec a i,
-    sha_injective sha -> sha_hexdigest sha -> float_separates_seconds fkey -> second_steps isec ->
+    sha_injective sha -> sha_hexdigest sha -> float_separates_seconds fkey ->
+    second_monotone isec -> second_steps isec ->
   forall w ops n en ej,
     wf_world w ->
     nth_error (run fkey sha isec a i w ops) n = Some en ->
@@ -48,19 +91,20 @@ Theorem fresh_after_change :
     r_status (e_resp ej) = 200 ->
     (forall b ws1 wk ws2 af, e_inm en = ITmpl b ws1 wk ws2 af -> wf_tmpl b ws1 ws2 af ->
        decoys_miss (etag_of fkey sha (e_file en)) (b ++ af) ->
-       f_size (e_file en) <> f_size (e_file ej) \/ f_mtime (e_file ej) + ns_per_s <= f_mtime (e_file en) ->
+       f_size (e_file en) <> f_size (e_file ej) \/
+       f_mtime (e_file ej) + ns_per_s <= f_mtime (e_file en) \/
+       f_mtime (e_file en) + ns_per_s <= f_mtime (e_file ej) ->
        e_resp en = full_response fkey sha isec (e_file en) /\ r_etag (e_resp en) <> r_etag (e_resp ej))
     /\
     (e_inm en = INone -> e_ims en = MLm ->
-       f_mtime (e_file ej) + ns_per_s <= f_mtime (e_file en) ->
-       e_resp en = full_response fkey sha isec (e_file en) /\ r_etag (e_resp en) <> r_etag (e_resp ej) /\
-       exists lj li, r_lm (e_resp ej) = Some lj /\ r_lm (e_resp en) = Some li /\ lj < li).
+       f_ctime (e_file ej) + ns_per_s <= f_ctime (e_file en) ->
+       e_resp en = full_response fkey sha isec (e_file en)).
 Proof. exact fresh_after_change_l. Qed.
 Print Assumptions fresh_after_change.
 
-(* '*' gets 304 (no body, no validators) whatever the file; while no modification was made
-   since the full response j, its ETag gets 304 when sent plain or weak, alone or as any
-   member of a list with arbitrary comma-free decoys, white space around it allowed. *)
+(* '*' gets 304 (no body, no validators) whatever the file; while no modification of any kind was made
+   since the full response j, its ETag gets 304 when sent plain or weak, alone or as any member of a
+   list with arbitrary comma-free decoys, white space around it allowed. *)
 Theorem etag_revalidates :
   forall fkey sha isec a i,
     sha_hexdigest sha ->
@@ -77,9 +121,11 @@ Theorem etag_revalidates :
 Proof. exact etag_revalidates_l. Qed.
 Print Assumptions etag_revalidates.
 
-(* Every full response names in Last-Modified the whole second of mtime as the
-   If-Modified-Since comparison computes it (not a later one); a request without validators
-   gets the full response; the date of an unmodified file revalidates to 304. *)
+(* Every full response names in Last-Modified the whole second of mtime as the comparison computes
+   seconds (not a later one); a request without validators gets the full response; the date of an
+   unmodified file revalidates to 304 when its change time lies in the second Last-Modified names
+   (always after a rewrite or touch; after a restore / utime that left mtime a second or more behind
+   ctime the date never revalidates — a full response, never a stale one). *)
 Theorem lm_floor :
   forall fkey sha isec a i w ops n en,
     wf_world w ->
@@ -92,9 +138,30 @@ Theorem lm_floor :
        (e_j en < n)%nat -> nth_error (run fkey sha isec a i w ops) (e_j en) = Some ej ->
        r_status (e_resp ej) = 200 -> e_gen en = e_gen ej ->
        e_inm en = INone -> e_ims en = MLm ->
+       isec (f_ctime (e_file en)) <= isec (f_mtime (e_file en)) ->
        e_resp en = not_modified).
 Proof. exact lm_floor_l. Qed.
 Print Assumptions lm_floor.
+
+(* Comparing the date with the modification time instead (the time Last-Modified is made from) breaks
+   the date clause of fresh_after_change: under premises that are satisfiable, a history in which the
+   file is replaced three seconds after response j by one of another size that carries the old mtime
+   gets 304 for the date of j. *)
+Theorem mtime_comparison_refuted :
+  exists fkey sha isec,
+    (sha_injective sha /\ sha_hexdigest sha /\ float_separates_seconds fkey /\
+     second_monotone isec /\ second_steps isec) /\
+  exists w ops n en ej,
+    wf_world w /\
+    nth_error (run_with (file_response_mtime fkey sha isec) w ops) n = Some en /\
+    (e_j en < n)%nat /\
+    nth_error (run_with (file_response_mtime fkey sha isec) w ops) (e_j en) = Some ej /\
+    r_status (e_resp ej) = 200 /\ e_inm en = INone /\ e_ims en = MLm /\
+    f_ctime (e_file ej) + ns_per_s <= f_ctime (e_file en) /\
+    f_size (e_file en) <> f_size (e_file ej) /\ f_ver (e_file en) <> f_ver (e_file ej) /\
+    e_resp en = not_modified.
+Proof. exact mtime_variant_refuted_l. Qed.
+Print Assumptions mtime_comparison_refuted.
 
 (* The string code, for every header text: a match is '*' alone or a member of the comma list
    that denotes the tag (white space, one W/ prefix and surrounding quotes removed) ... *)
@@ -136,3 +203,10 @@ Example example_history :
       (304, None, None); (200, Some (2, 9), Some 5);
       (200, Some (2, 9), Some 6) ].
 Proof. exact (conj ex_w0_wf ex_history_l). Qed.
+
+(* the history of the refutation on the code itself: the date of response 0 gets the new version *)
+Example example_restore_history :
+  map (fun e => (r_status (e_resp e), r_body (e_resp e), r_lm (e_resp e)))
+      (run ex_fkey ex_sha ex_isec Pages Asgi ex_w0 ex_restore_ops)
+  = [ (200, Some (1, 8), Some 5); (200, Some (2, 9), Some 5) ].
+Proof. exact ex_restore_history_l. Qed.
